@@ -339,7 +339,7 @@ def check_C11(chk, tier, seed):
             cases.append((line(toks), toks, True))
     # answers of different lengths on one connection (long before short, short before long), and a request the encoder
     # refuses (nothing of it may reach the wire) between ordinary ones
-    for k, sizes in enumerate([(300, 0), (0, 300), (5000, 1, 0), (17000, 3), (1, 70000, 2), (40, 39, 38, 37)]):
+    for k, sizes in enumerate([(300, 0), (0, 300), (5000, 1, 0), (17000, 3), (1, 70000, 2), (40, 39, 38, 37), (1048536, 0), (4, 1048532, 1048536)]):      # 1048536: an answer of exactly 1 MiB, the largest the reader accepts
         hops = [0x60 + j for j in range(len(sizes))]
         toks = []
         for hp in hops:
@@ -633,7 +633,11 @@ def check_C12(chk, tier, seed):
                     chk.corr_break("client observation differs from the model", dict(case=c, impl=short(im), model=short(mo)))
                 mo = im
                 n_many = int(toks[0].split()[1])
-                if len(outs) != n_many + 2 or not all(o == "ERR" for o in outs[1:n_many - 1] + outs[n_many:]):
+                if len(outs) == n_many + 2 and not (outs[0].startswith("GOT") and outs[n_many - 1].startswith("GOT")):
+                    ok = False
+                    chk.violation("with hundreds of requests outstanding, the first and the last of them did not get the answers the peer sent to exactly those two",
+                                  dict(case=c, impl=short(im, 600), first=outs[0], last=outs[n_many - 1]))
+                elif len(outs) != n_many + 2 or not all(o == "ERR" for o in outs[1:n_many - 1] + outs[n_many:]):
                     ok = False
                     chk.violation("with hundreds of requests outstanding when the stream ended, not every response future failed (or a send afterwards was not refused)",
                                   dict(case=c, impl=short(im, 600), outcomes_not_ERR=[(j, o) for j, o in enumerate(outs) if o != "ERR"][:10]))
